@@ -57,7 +57,7 @@ def run(tier, seed):
                    "section (every waiter without deadline must finish: a lost or swallowed wake-up ends stuck), readers + ONE signal, signal "
                    "under a read lock, and the single-waiter mode in which a wake-up issued in time must be reported as 0 whatever the clock "
                    "and the note do afterwards; waitn_mix on cvs; non-trivial = runs with semaphore sleeps")
-    tiex = mu_common.tie(res, "muxfer_replay", "MuXferModel", [("cv_mix", {"VRT_MODE": m}, 80, 800) for m in (0, 1, 2, 4)] +
+    tiex = mu_common.tie(res, "muxfer_replay", "MuXferModel", [("cv_mix", {"VRT_MODE": m}, 80, 800) for m in (0, 1, 2, 3, 4, 7)] +
                          [("cv_mix", {"VRT_MODE": m, "VRT_GENERIC": 0}, 60, 600) for m in (5, 6)], tier, seed)
     for k in ("traces_validated_against_impl", "lockstep_model_steps"):
         tie[k] = tie.get(k, 0) + tiex.get(k, 0)
